@@ -10,10 +10,12 @@ from harness.gen import sgdata as gen_sg
 from harness.gen import trigonal as gen_trig
 
 ID = "C13"
-LEAN_TARGETS = ["ChmpyVerif.Props.C13"]
+LEAN_TARGETS = ["ChmpyVerif.Props.C13", "ChmpyVerif.Props.C14Groups"]
 T = "ChmpyVerif.Props.C13."
 THEOREMS = [T + n for n in ("trig_T_inverse", "trigonal_ops_conjugate", "supercell_uses_vectors", "trigonal_roundtrip", "trigonal_coords_roundtrip",
                             "supercell_index_unique", "supercell_same_crystal", "supercell_volume", "density_invariant")]
+# which groups have both trigonal settings: read off the regenerated table (kernel-checked), not asked of the code under test
+THEOREMS += ["ChmpyVerif.Props.C14.both_settings_groups"]
 TRUSTED = [
     "translator harness/gen/trigonal.py (the two T literals of choose_trigonal_lattice, the `np.dot(T, direct)` cell construction, the diag(n)·direct "
     "supercell construction) and the space-group table translator (C02)",
